@@ -13,6 +13,8 @@ import MiVerif.Model.Commit
 import MiVerif.Lemmas.C07Range
 import MiVerif.Lemmas.C07Gen
 import MiVerif.Lemmas.ArenaGenProofs
+import MiVerif.Lemmas.MaskLoop
+import MiVerif.Lemmas.CommittedSize
 
 namespace C07
 open CommitM
@@ -359,5 +361,48 @@ def seg0 : Seg := { commit := fun k => k == 0, purge := fun _ => false, os := fu
 example : SInv seg0 := by intro k hk; exact hk
 example : (segAlloc seg0 65536 65536 false).2 = none ∧ (segAlloc seg0 65536 65536 false).1.commit 1 = false := by decide +kernel
 example : (segAlloc seg0 65536 65536 true).2 = some (65536, 65536) ∧ (segAlloc seg0 65536 65536 true).1.commit 1 = true ∧ (segAlloc seg0 65536 65536 true).1.os 1 = true := by decide +kernel
+
+/-- **the commit mask built by the generated `mi_commit_mask_create` is the bit range** (src/segment.c, a `while` loop over the 64-bit
+    fields regenerated as `whileN`; `Gen/CommitPrelude.lean` interprets the mask a commit / purge request works on as `mRange i n`, and
+    this is what justifies it): for `0 < bitcount < 512`, `bitidx + bitcount ≤ 512` the function empties the mask and then stores field
+    values whose bits — a later store wins, an untouched field stays empty — are exactly the units `[bitidx, bitidx + bitcount)` -/
+theorem generated_commit_mask_create_is_the_bit_range {α : Type} (full empty cm_in : α) (bitidx bitcount cm : Nat)
+    (h1 : 0 < bitcount) (h2 : bitcount < 512) (h3 : bitidx + bitcount ≤ 512) (hcm : cm + 64 < 2^64) :
+    ∃ l : List (Nat × Nat),
+      GenL.mi_commit_mask_create full empty cm_in bitidx bitcount cm = (empty, l.map (MaskL.toStore cm)) ∧
+      ∀ k, MaskL.bitAfter l k = GenC.mRange bitidx bitcount k := by
+  have h := MaskL.create_bits full empty cm_in bitidx bitcount cm h1 h2 h3
+    (by have : (2:Nat)^64 = 18446744073709551616 := by decide
+        show cm + 64 < 18446744073709551616; omega)
+  exact ⟨_, h.1, fun k => by rw [h.2 k]; rfl⟩
+
+/-- the two remaining cases: all 512 units → the full mask, no unit → the empty mask (no store at all) -/
+theorem generated_commit_mask_create_full_and_empty {α : Type} (full empty cm_in : α) (bitidx cm : Nat) :
+    GenL.mi_commit_mask_create full empty cm_in bitidx 512 cm = (full, []) ∧
+    GenL.mi_commit_mask_create full empty cm_in bitidx 0 cm = (empty, []) :=
+  ⟨MaskL.create_full full empty cm_in bitidx cm, MaskL.create_empty full empty cm_in bitidx cm⟩
+
+-- non-vacuity: 70 units from unit 60 on: field 0 gets its four top bits, field 1 all 64 bits, field 2 its two low bits
+example : GenL.mi_commit_mask_create (1 : Nat) 0 2 60 70 4096 =
+    (0, [("store64", [4096, 17293822569102704640]), ("store64", [4104, 18446744073709551615]), ("store64", [4112, 3])]) := by decide
+
+/-- **the regenerated `_mi_commit_mask_committed_size` reports the whole size exactly for a full mask** (src/segment.c: a `for` loop over
+    the eight fields with a bit-counting `for` loop inside, regenerated as nested `whileN`; `ld64` is the memory the mask is read from).
+    `mi_segment_os_free` passes this value to `_mi_arena_free`, which treats the memory as completely committed — hence accessible —
+    only when it equals the size (`full_mask_means_accessible` above is the model-side half of that argument) -/
+theorem generated_committed_size_is_total_iff_mask_full (ld64 : Nat → Nat) (cm total : Nat)
+    (hw : ∀ i, i < 8 → ld64 (CSizeL.fieldAddr cm i) < 2^64) (hdiv : total % 512 = 0) (hpos : 0 < total) (hlt : total < 2^64) :
+    GenL._mi_commit_mask_committed_size ld64 cm total = total ↔ ∀ i, i < 8 → ld64 (CSizeL.fieldAddr cm i) = 18446744073709551615 := by
+  have e : (2:Nat)^64 = CSizeL.M := by decide
+  rw [e] at hw hlt
+  exact ⟨fun h => CSizeL.total_only_if_full ld64 cm total hw hdiv hpos hlt h,
+         fun h => CSizeL.full_reports_total ld64 cm total h hdiv hlt⟩
+
+/-- in general it is `(total / 512) ·` the number of set bits (a full field counted as 64 without looking at its bits) -/
+theorem generated_committed_size_value (ld64 : Nat → Nat) (cm total : Nat) (hw : ∀ i, i < 8 → ld64 (CSizeL.fieldAddr cm i) < 2^64) :
+    GenL._mi_commit_mask_committed_size ld64 cm total = ((total / 512) * CSizeL.sumFrom (CSizeL.contrib ld64 cm) 0 8) % 2^64 := by
+  have e : (2:Nat)^64 = CSizeL.M := by decide
+  rw [e] at hw ⊢
+  exact CSizeL.committed_size_eq ld64 cm total hw
 
 end C07
